@@ -48,6 +48,12 @@ theorem textinput_models_agree_run {A : Type} (isAlnum : List A → Bool) (m : V
     runCl isAlnum m evs = (runG isAlnum (gOf m) (evs.map evOf)).map cOf :=
   runs_agree isAlnum evs m h hs
 
+/-- `SetContent` agrees too (no hypothesis): the programmatic API of the two models is one. -/
+theorem textinput_models_agree_setcontent {A : Type} (m : VaxisModel.Model.TextInputCl.TIC A) (s : List A) :
+    VaxisModel.Model.TextInputCl.setContent singletons m s =
+      cOf (VaxisModel.Model.TextInput.setContent (gOf m) (singletons s)) := by
+  simp [VaxisModel.Model.TextInputCl.setContent, VaxisModel.Model.TextInput.setContent, cOf, gOf, singletons_flatten]
+
 /-- Non-vacuity: "ab|" + typed "c" in both models. -/
 example : VaxisModel.Model.TextInputCl.update singletons (fun _ => true) ⟨[[0], [1]], 2, 0, []⟩ (.key "c" false false false [2]) =
     some ⟨[[0], [1], [2]], 3, 0, []⟩ := by decide
